@@ -139,6 +139,13 @@ fn run_case(workers: usize, shard: usize, kind: Kind, nb: Neighbours) -> CaseRes
             st.flush().unwrap();
             sut.sess.clock.store(T0 + 2_000_000_000, Ordering::SeqCst);
         }
+        Kind::BacklogAfterFailedBatch => {
+            // four durable keys of the shard: deleted (two) and overwritten (two) behind the backlog below
+            for k in &key_of[shard][1096..1100] {
+                st.insert(k, b"durable before the backlog").unwrap();
+            }
+            st.flush().unwrap();
+        }
         _ => {}
     }
     if nb == Neighbours::Busy {
@@ -179,9 +186,20 @@ fn run_case(workers: usize, shard: usize, kind: Kind, nb: Neighbours) -> CaseRes
         }
         Kind::BacklogAfterFailedBatch => {
             sut.sess.hold_workers.store(true, Ordering::SeqCst);
-            for k in &key_of[shard][..1100] {
+            for k in &key_of[shard][..1096] {
                 st.insert(k, b"backlog").unwrap();
                 expect_present.push((k.clone(), b"backlog".to_vec()));
+            }
+            // ... and, behind more than one journal-sized batch of inserts, deletes and overwrites of
+            // keys that are already on the device: the part of the drain that is never attempted when the
+            // first batch fails carries retirements too
+            for k in &key_of[shard][1096..1098] {
+                st.delete(k).unwrap();
+                expect_absent.push(k.clone());
+            }
+            for k in &key_of[shard][1098..1100] {
+                st.insert(k, b"overwritten behind the backlog").unwrap();
+                expect_present.push((k.clone(), b"overwritten behind the backlog".to_vec()));
             }
             sut.sess.fault.lock().fail_data_writes = 3;
             sut.sess.hold_workers.store(false, Ordering::SeqCst);
